@@ -2,6 +2,7 @@
 import json
 import os
 from engine import flow as fl, ru, paths as pa, expr, tables
+from rules import shared, C16 as _c16
 
 EXPLANATION = (
     "Def-use, table and bound rules over config <-> frame::Settings: (a) TryFrom<Config> inserts distinct constant "
@@ -19,7 +20,7 @@ EXPLANATION = (
     "OnceLock; defaults otherwise (C10-c). The cfg(test) send_settings switch is test-only code.")
 # every anchor of these rules lives in the h3 crate: thorough tier repeats them on the feature-less build
 EXTRA_CONFIGS = ["h3-plain"]
-RULES = "C13-a what is sent (A4/A11); C13-b capacity and buffer bound (A17/A6); C13-c setup never panics (A4/A5); C13-d receive (A3/A2/A11); C13-e applied once (A10)"
+RULES = "C13-a what is sent (A4/A11); C13-b capacity and buffer bound (A17/A6); C13-c setup never panics (A4/A5); C13-d receive (A3/A2/A11); C13-e applied once (A10); shared: varint form tables under C13-a, frame reader memo under C13-d"
 
 FRM = "h3::proto::frame::"
 HERE = os.path.dirname(os.path.dirname(os.path.abspath(__file__)))
@@ -32,6 +33,10 @@ def vsize(x):
 
 
 def run(ctx):
+    # constructs shared with other properties: the varint forms every SETTINGS length/identifier/value is written in, and the
+    # incremental frame reader that has to hand the peer's SETTINGS frame over once it is complete
+    _c16.varint_form_tables(ctx, "C13-a")
+    shared.frame_decoder_memo(ctx, "C13-d")
     prog = ctx.prog
     consts = prog.consts
     SID = FRM + "SettingId::"
